@@ -298,9 +298,13 @@ func (cs *Case) features(comp string) string {
 	return strings.Join(f, "+")
 }
 
-func judge(c *engine.Ctx, apps *hx.Apps, cs *Case) {
-	var views [3]view
+// observeAll sends the logical request to the three entry points.
+func observeAll(apps *hx.Apps, cs *Case) (views [3]view, failed string, err error) {
+	return observeAllAs(apps, cs, "")
+}
 
+// observeAllAs: with a correlation id the proxy request can be told apart from those of concurrent clients.
+func observeAllAs(apps *hx.Apps, cs *Case, correlation string) (views [3]view, failed string, err error) {
 	for i, e := range entries {
 		var r *hx.Resp
 
@@ -325,18 +329,50 @@ func judge(c *engine.Ctx, apps *hx.Apps, cs *Case) {
 
 			r = apps.DoDecision(req)
 		case "proxy":
-			r = apps.DoProxy(cs.req())
+			if correlation != "" {
+				r = apps.DoProxyConcurrent(cs.req(), correlation)
+			} else {
+				r = apps.DoProxy(cs.req())
+			}
 		default:
 			r = apps.DoEnvoy(cs.req())
 		}
 
 		if r.ParseErr != nil {
-			c.Violation("transport-error/"+e, fmt.Sprintf("%+v: %v", *cs, r.ParseErr), cs)
-
-			return
+			return views, e, r.ParseErr
 		}
 
 		views[i] = extract(e, r)
+	}
+
+	return views, "", nil
+}
+
+func (v view) String() string {
+	keys := make([]string, 0, len(v.comp))
+	for k := range v.comp {
+		keys = append(keys, k)
+	}
+
+	sort.Strings(keys)
+
+	var sb strings.Builder
+
+	fmt.Fprintf(&sb, "allowed=%v status=%d", v.allowed, v.status)
+
+	for _, k := range keys {
+		fmt.Fprintf(&sb, " %s=%q", k, v.comp[k])
+	}
+
+	return sb.String()
+}
+
+func judge(c *engine.Ctx, apps *hx.Apps, cs *Case) {
+	views, failed, verr := observeAll(apps, cs)
+	if verr != nil {
+		c.Violation("transport-error/"+failed, fmt.Sprintf("%+v: %v", *cs, verr), cs)
+
+		return
 	}
 
 	c.Eval(1)
@@ -456,7 +492,9 @@ func Check() *engine.Check {
 			"(decision and proxy handler chains via ServeHTTP on parsed raw requests, Envoy gRPC server over an in-memory connection, recording upstream) " +
 			"loaded with one rule set of real mechanisms (anonymous authenticator, CEL authorizers on captures/method/path, conditional finalizer, " +
 			"header finalizer echoing every request-view component, two finalizers adding the same header, cookie finalizer); oracle: pairwise equality " +
-			"of decision, every echoed component and the headers/cookies handed upstream. Non-trivial = allowed by all three with a non-empty view.",
+			"of decision, every echoed component and the headers/cookies handed upstream. Non-trivial = allowed by all three with a non-empty view. " +
+			"Race pass: ~90 of the requests sent alone and then by 8 concurrent clients in different orders under the race detector; every " +
+			"concurrent answer equals the one the request got alone.",
 		Assumptions: []string{
 			"the logical request is rendered for Envoy as path=escaped path, query=raw query, scheme, host, method, lower-cased header map " +
 				"(repeated headers comma-joined), body in both body and raw_body — the rendering the repository's own tests use",
@@ -470,8 +508,9 @@ func Check() *engine.Check {
 
 			return 3 * time.Minute
 		},
-		Run:    run,
-		Replay: replay,
+		Run:      run,
+		Replay:   replay,
+		RacePass: racePass,
 	}
 }
 
@@ -500,6 +539,10 @@ func setup(trace bool) (*hx.Apps, error) {
 }
 
 func run(c *engine.Ctx) {
+	if c.Shard == 0 {
+		engine.RunRacePass(c)
+	}
+
 	apps, err := setup(false)
 	if err != nil {
 		c.Infra("fixture: %v", err)
@@ -540,6 +583,16 @@ func run(c *engine.Ctx) {
 }
 
 func replay(c *engine.Ctx, raw json.RawMessage) {
+	var rp struct {
+		RacePass bool `json:"race_pass"`
+	}
+
+	if json.Unmarshal(raw, &rp) == nil && rp.RacePass {
+		engine.RunRacePass(c)
+
+		return
+	}
+
 	var cs Case
 	if err := json.Unmarshal(raw, &cs); err != nil {
 		c.Infra("bad replay: %v", err)
